@@ -1,7 +1,7 @@
 (* Entry.v — single extracted entry point [run]: request = VList [VStr name; arg].
    All marshalling is done here in Gallina so that ocaml/driver.ml stays generic. *)
 From Coq Require Import ZArith List Bool String Ascii.
-From Verif Require Import PyStr Normalize NormalizeGen Util UtilGen Toc TocGen Footnote FootnoteGen Cli CliGen StoreGen Rx UnicodeGen RxGen.
+From Verif Require Import PyStr Normalize NormalizeGen Util UtilGen Toc TocGen Footnote FootnoteGen Cli CliGen StoreGen Rx UnicodeGen RxGen Scanner.
 Import ListNotations.
 Open Scope Z_scope.
 
@@ -116,6 +116,21 @@ Definition run_named (name : str) (arg : pval) : pval :=
                    else if (mode =? 1)%Z then re_search U r s p e
                    else re_fullmatch U r s p e)
       end
+    | _ => VErr "arg" end
+  else if is_name name "scan" then
+    match arg with
+    | VList [VList names; VInt mode; VStr s; VInt pos; VInt endpos] =>
+      let rules := flat_map (fun v => match v with
+                                      | VStr nm => match assoc_rx nm rx_table with Some r => [(nm, r)] | None => [] end
+                                      | _ => [] end) names in
+      if negb (Nat.eqb (List.length rules) (List.length names)) then VErr "unknown rule"
+      else
+        let res := if (mode =? 0)%Z then scan_match U rules s (Z.to_nat pos) (Z.to_nat endpos)
+                   else scan_search U rules s (Z.to_nat pos) (Z.to_nat endpos) in
+        match res with
+        | Some (nm, r) => VList [VStr nm; enc_match (Some r)]
+        | None => VNone
+        end
     | _ => VErr "arg" end
   else VErr "unknown function".
 
